@@ -340,3 +340,49 @@ func VerifC18_DuplicateAfterLostAck() {
 	vsymAssert(acks == 2 && naks == 0, "retransmission-acked-again")
 	vsymAssert(len(frames) == 1, "delivered-exactly-once")
 }
+
+// VerifC18_RetransmitThenMultiBlockIntact: one receiver (one lineIO, one assembler) through a line
+// fault followed by good traffic: a two-block message whose first block arrives corrupted (NAK),
+// is retransmitted intact (ACK) and is followed by its last block (ACK). The message is delivered
+// exactly once and byte-identical, whatever the (symbolic) body bytes are: nothing a later block
+// is read into may overlap a block that was already accepted.
+func VerifC18_RetransmitThenMultiBlockIntact() {
+	vsymExpect("delivered")
+	var clock int64
+	var frames [][]byte
+	dev := vsymU16() & 0x7FFF
+	a := newVAssembler(true, dev, 45*time.Second, &clock, &frames)
+	sys := [4]byte{vsymU8(), vsymU8(), vsymU8(), vsymU8()}
+	h1 := [10]byte{byte(dev >> 8), byte(dev), 0x81, 0x03, 0x00, 0x01, sys[0], sys[1], sys[2], sys[3]}
+	h2 := h1
+	h2[4], h2[5] = 0x80, 0x02
+	b1 := []byte{vsymU8(), vsymU8(), vsymU8()}
+	b2 := []byte{vsymU8(), vsymU8()}
+	w1 := block{header: h1, body: wire.ChunkOf(b1)}.appendTo(nil)
+	w2 := block{header: h2, body: wire.ChunkOf(b2)}.appendTo(nil)
+	bad := append([]byte(nil), w1...)
+	flip := 1 + vsymU8()%255
+	bad[11] ^= flip // one corrupted body character: the checksum no longer matches
+	conn := &vline{clock: &clock, script: []lineEv{{data: bad}, {timeout: true}, {data: append([]byte(nil), w1...)}, {data: append([]byte(nil), w2...)}}}
+	l := newVLine(conn, true, &clock)
+	_, err0 := l.receiveBlock(context.Background())
+	vsymAssert(err0 != nil, "corrupted-block-refused")
+	for i := 0; i < 2; i++ {
+		blk, err := l.receiveBlock(context.Background())
+		vsymAssert(err == nil, "good-block-received")
+		if err == nil {
+			vsymAssert(a.accept(blk) == nil, "accept-ok")
+		}
+	}
+	_, _, acks, naks, _ := conn.tally()
+	vsymReach("delivered")
+	vsymAssert(acks == 2 && naks == 1, "one-nak-two-acks")
+	vsymAssert(len(frames) == 1, "delivered-exactly-once")
+	if len(frames) == 1 {
+		f := frames[0]
+		vsymAssert(len(f) == 15, "header-plus-five-body-bytes")
+		if len(f) == 15 {
+			vsymAssert(f[10] == b1[0] && f[11] == b1[1] && f[12] == b1[2] && f[13] == b2[0] && f[14] == b2[1], "body-byte-identical-after-a-retransmission")
+		}
+	}
+}
